@@ -216,9 +216,16 @@ static int operand_tok(struct instr *instr_buffer, char *opds, int opd_pos) {
   FAIL_IF(opds[0] == ',');
   // get the 1st operand
   char *all_opd = strtok_r(opds, ",", &saved_opd);
+  union keywords before = instr_buffer->keyword;
   check_for_keyword(instr_buffer, all_opd, opd_pos);
   // get the operand type can be 'i', 'r', or 'm'
   instr_buffer->opd[opd_pos].type = get_operand_type(all_opd);
+  // a register has its size: a size keyword in front of it says nothing new
+  if (instr_buffer->opd[opd_pos].type == 'r') {
+    instr_buffer->keyword.is_byte = before.is_byte;
+    instr_buffer->keyword.is_word = before.is_word;
+    instr_buffer->keyword.is_dword = before.is_dword;
+  }
   FAIL_IF(check_operand_type(instr_buffer, all_opd, opd_pos, saved_opd));
   // get next operand
   char *next_operands = strtok_r(NULL, "", &saved_opd);
